@@ -11,17 +11,51 @@ fn now_ms() -> u64 {
     std::time::SystemTime::now().duration_since(std::time::UNIX_EPOCH).map(|d| d.as_millis() as u64).unwrap_or(1)
 }
 
-/// A case that does not answer within VHARNESS_CASE_TIMEOUT seconds (default 30) ends the process with status
-/// 124: the driver then reports the first unanswered case as the culprit (a hang is a violation for the
-/// totality properties and a broken run for the others) instead of waiting for the whole shard's time limit.
+/// CPU time (user + system, all threads) this process has consumed so far, in ms (from /proc/self/stat; 0 if unreadable).
+fn cpu_ms() -> u64 {
+    let s = match std::fs::read_to_string("/proc/self/stat") {
+        Ok(s) => s,
+        Err(_) => return 0,
+    };
+    // fields after the parenthesised command name: state is field 3, utime field 14, stime field 15
+    let rest = match s.rfind(')') {
+        Some(i) => &s[i + 1..],
+        None => return 0,
+    };
+    let f: Vec<&str> = rest.split_ascii_whitespace().collect();
+    let ticks = f.get(11).and_then(|v| v.parse::<u64>().ok()).unwrap_or(0) + f.get(12).and_then(|v| v.parse::<u64>().ok()).unwrap_or(0);
+    ticks * 10 // CLK_TCK = 100 on Linux
+}
+
+/// A case that burns more than VHARNESS_CASE_TIMEOUT seconds of CPU (default 30), or does not answer within ten
+/// times that in wall-clock time (a case that sleeps or deadlocks), ends the process with status 124: the driver
+/// then reports the first unanswered case as the culprit (a hang is a violation for the totality properties and a
+/// broken run for the others) instead of waiting for the whole shard's time limit.  The budget is CPU time so
+/// that a heavily loaded machine (load average 100 was seen while many checks ran side by side) does not turn a
+/// 3-second case into a reported hang.
 fn start_watchdog() {
     let limit_ms: u64 = std::env::var("VHARNESS_CASE_TIMEOUT").ok().and_then(|v| v.parse::<u64>().ok()).unwrap_or(30) * 1000;
-    std::thread::spawn(move || loop {
-        std::thread::sleep(std::time::Duration::from_millis(200));
-        let t0 = CASE_STARTED_MS.load(std::sync::atomic::Ordering::Relaxed);
-        if t0 != 0 && now_ms().saturating_sub(t0) > limit_ms {
-            eprintln!("watchdog: a case exceeded {} ms", limit_ms);
-            std::process::exit(124);
+    std::thread::spawn(move || {
+        let mut seen_t0 = 0u64;
+        let mut cpu0 = 0u64;
+        loop {
+            std::thread::sleep(std::time::Duration::from_millis(200));
+            let t0 = CASE_STARTED_MS.load(std::sync::atomic::Ordering::Relaxed);
+            if t0 == 0 {
+                seen_t0 = 0;
+                continue;
+            }
+            if t0 != seen_t0 {
+                seen_t0 = t0;
+                cpu0 = cpu_ms();
+                continue;
+            }
+            let wall = now_ms().saturating_sub(t0);
+            let cpu = cpu_ms().saturating_sub(cpu0);
+            if cpu > limit_ms || wall > 10 * limit_ms {
+                eprintln!("watchdog: a case exceeded {} ms (cpu {} ms, wall {} ms)", limit_ms, cpu, wall);
+                std::process::exit(124);
+            }
         }
     });
 }
